@@ -138,12 +138,13 @@ def check_replay_bounds(ctx, W, sim, prop="C03"):
         else:
             ctx.prove(ctx.le(vol, lab.max_volume + tol), f"{prop}: replayed record {irec} takes {rack}{w} above max_volume")
     for st in sim.steps:
+        # the step volume as requested (pre-rounding) when the record carries it, else the written value minus the format's rounding
+        ex = st[5] if st[5] is not None else st[4] - 0.005
         if st[0] in ("A", "D"):
-            ctx.prove(ctx.le(st[4], W.wl_max), f"{prop}: {st[0]} step exceeds the worklist max_volume")
+            ctx.prove(ctx.le(ex, W.wl_max), f"{prop}: {st[0]} step exceeds the worklist max_volume")
         else:
-            md = st[7][14]
-            mdv = ctx.int_field(md)
-            ctx.prove(ctx.le(st[4] * mdv, W.wl_max), f"{prop}: R record volume x multi_disp exceeds the worklist max_volume")
+            mdv = ctx.int_field(st[7][14])
+            ctx.prove(ctx.le(ex * mdv, W.wl_max), f"{prop}: R record volume x multi_disp exceeds the worklist max_volume")
 
 
 def check_state_agreement(ctx, W, sim, prop="C01"):
